@@ -490,6 +490,13 @@ fn switch_case(at: u8, call: u8) -> Result<(), String> {
         }
     }
     m.set_pacing(Pacing::STOP_THE_WORLD);
+    // (the reported debt follows the pacing in force: an adjustment by exactly zero cannot move it)
+    let d1 = m.allocation_debt();
+    m.adjust_debt(0.0);
+    let d2 = m.allocation_debt();
+    if d1 != d2 {
+        return Err(format!("right after set_pacing (all work factors zero, while {}) allocation_debt() read {d1}; after adjust_debt(0.0) it reads {d2}", ["Sleeping before the first cycle", "Marking", "Marked", "Sweeping", "Sleeping after a cycle"][at as usize]));
+    }
     m.adjust_debt(1.0e6);
     let d = m.allocation_debt();
     m.adjust_debt(5.0 - d);
